@@ -173,7 +173,8 @@ PROPS = {
             "C09_best_is_first_best", "C09_best_is_optimal", "C09_filter_is_filter", "C09_map_keys", "C09_map_nth",
             "C09_any_some", "C09_any_none", "C09_to_array_keys", "C09_to_array_values",
             "C09_native_sorted", "C09_native_min_max", "C09_native_to_array", "C09_native_passthrough",
-            "C09_sorted_by_key_contract", "C09_min_max_by_key_contract", "C09_sorts_agree", "C09_std_filter", "C09_std_map", "C09_std_any"]},
+            "C09_sorted_by_key_contract", "C09_min_max_by_key_contract", "C09_sorts_agree", "C09_std_filter", "C09_std_map", "C09_std_any", "C09_std_inputs_unchanged",
+            "C09_tree_orderings_agree_on_samples"]},
         n_quick=400, n_thorough=4000,
         gen_timeout=3000,
         gates=["fn.filter", "fn.map", "fn.any", "fn.min", "fn.max", "fn.min_by_key", "fn.max_by_key", "fn.sorted",
